@@ -211,6 +211,8 @@ pub struct Mon<'a> {
     pub check_carried: bool,
     /// check that Equal pairs are equal
     pub check_data: bool,
+    /// carried indices must equal the cursor at the time of the call
+    pub exact_carried: bool,
 }
 
 impl<'a> Mon<'a> {
@@ -236,6 +238,7 @@ impl<'a> Mon<'a> {
             equal: 0,
             check_carried: true,
             check_data: true,
+            exact_carried: false,
         }
     }
 
@@ -356,6 +359,13 @@ impl<'a> DiffHook for Mon<'a> {
             n,
             self.or
         );
+        if self.exact_carried {
+            claim!(
+                n == self.nc,
+                "Delete({},{},{}) carries new index {} but the new cursor is {} (calls {:?})",
+                o, len, n, n, self.nc, self.calls
+            );
+        }
         self.open_run();
         self.run_carried.push((true, n));
         self.oc += len;
@@ -384,6 +394,13 @@ impl<'a> DiffHook for Mon<'a> {
             len,
             self.nr
         );
+        if self.exact_carried {
+            claim!(
+                o == self.oc,
+                "Insert({},{},{}) carries old index {} but the old cursor is {} (calls {:?})",
+                o, n, len, o, self.oc, self.calls
+            );
+        }
         self.open_run();
         self.run_carried.push((false, o));
         self.nc += len;
@@ -676,4 +693,23 @@ pub fn reset_hooks() {
 
 pub fn any_instant() -> Option<std::time::Instant> {
     Some(std::time::Instant::now())
+}
+
+pub static CONSTS: std::sync::OnceLock<serde_json::Value> = std::sync::OnceLock::new();
+pub fn konst(name: &str) -> u64 {
+    CONSTS
+        .get()
+        .and_then(|c| c[name].as_u64())
+        .unwrap_or_else(|| panic!("constant {} missing from constants.json", name))
+}
+
+/// All old items differ from all new items on this path?
+pub fn entails_disjoint(a: &[Sym], b: &[Sym]) -> bool {
+    let mut fs = vec![];
+    for x in a {
+        for y in b {
+            fs.push(F::ne(x.0, y.0));
+        }
+    }
+    engine::entails(&F::And(fs))
 }
